@@ -22,5 +22,7 @@ func init() {
 		{"R21d", ruleDecodeHeader},
 		{"R5", ruleFraming},
 		{"R17", ruleDivisibility},
+		{"R14s", ruleDomainSML},
+		{"R1es", ruleSMLTables},
 	}, Explanation: "tmp"})
 }
